@@ -173,7 +173,13 @@ Member gen_file(Rng &rng, int level, const std::string &path, const std::string 
 			bool env = rng.chance(2, 3);
 			m.plain = env ? make_macbinary(name, fork, (uint32_t)(mt + (int64_t) rng.below(3600) - 1800)) : fork;
 			m.mac = env;
-			if (env && rng.chance(1, 6) && name.size() < 50) {
+			if (env && rng.chance(1, 6) && name.size() > 2) {
+				// a MacBinary file of its own, archived under a longer name ("notes" inside "notes.bin"): the names differ, so this is
+				// no envelope either
+				std::string inner = name.substr(0, 1 + rng.below(name.size() - 1));
+				m.plain = make_macbinary(inner, fork, (uint32_t) mt);
+				m.mac = 0;
+			} else if (env && rng.chance(1, 6) && name.size() < 50) {
 				// looks like an envelope, but its name-length byte claims more characters than the member's name has:
 				// not an envelope, the member is its 128-byte-aligned bytes as they are
 				m.plain[1] = (uint8_t)(name.size() + 1 + rng.below(12));
